@@ -163,6 +163,17 @@ DB_ASSUME = ["sequential driver: one goroutine issues all calls (interleavings a
              "LPM Get/List are judged for full-length keys and stored prefixes"]
 
 
+def stress_family(tier, seed, prop):
+    """Free-running goroutines under the race detector; the oracle is carried in the data (StressTrace.tla)."""
+    quick = tier == "quick"
+    rng = random.Random(seed * 67 + int(prop[1:]))
+    runs = []
+    for i in range(4 if quick else 60):
+        runs.append([dict(op="stress", tables=rng.choice([2, 3, 4]), writers=rng.choice([2, 4, 6]), txns=rng.choice([20, 40]),
+                          readers=rng.choice([2, 4]), reads=rng.choice([30, 60]), seed=rng.randrange(10**6))])
+    return Family("stress", "stress", "StressTrace", runs, race=True)
+
+
 def _db_prop(prop, mode, nq, nt, rule, nontrivial, extra_modes=(), tlc_gen=False):
     def fn(tier, seed, rng):
         import db_gen
@@ -176,6 +187,9 @@ def _db_prop(prop, mode, nq, nt, rule, nontrivial, extra_modes=(), tlc_gen=False
             if m2 == "sched":
                 fams += sched_families(tier, seed, rng, prop, q2, t2, q2, t2)
                 design += impl_design(tier)
+                continue
+            if m2 == "stress":
+                fams.append(stress_family(tier, seed, prop))
                 continue
             fams.append(Family(m2, "db", "DBTrace", db_gen.generate(m2, q2 if quick else t2, seed * 37 + int(prop[1:]))))
         return design, fams, [prop], dict(rule=rule, nontrivial=nontrivial, assumptions=DB_ASSUME)
@@ -296,8 +310,10 @@ def _sched_prop(prop, rule):
         if not quick:
             design += [dict(mutant_check("MCDBImpl", c, e), states=0, transitions=0) for c, e in IMPL_MUTANTS]
         fams = sched_families(tier, seed, rng, prop, 150, 3000, 250, 6000)
+        if prop == "C05":
+            fams.append(stress_family(tier, seed, prop))
         return design, fams, [prop], dict(
-            rule=rule, nontrivial=lambda ops: len(ops[0]["actors"]) >= 2 and len(ops[0]["schedule"]) >= 3,
+            rule=rule, nontrivial=lambda ops: (ops[0].get("op") == "stress") or (len(ops[0]["actors"]) >= 2 and len(ops[0]["schedule"]) >= 3),
             assumptions=["goroutines are serialised by the verif hooks: one protocol step at a time; blocked = goroutine "
                          "wait reason sync.Mutex.Lock", "bounded actor counts (<= 6 goroutines)"] + DB_ASSUME[1:3])
     return fn
@@ -377,13 +393,13 @@ PROPS = {
                     "non-unique LPM indexes; snapshots are retained and the same queries re-issued after later "
                     "committed/aborted/pending transactions and graveyard collection; non-trivial = script re-queries "
                     "a retained snapshot after a later write transaction", _nt_requery,
-                    extra_modes=(("c07", 100, 2000), ("lpmshared", 150, 3000))),
+                    extra_modes=(("c07", 100, 2000), ("lpmshared", 150, 3000), ("stress", 0, 0))),
     "C02": _db_prop("C02", "c02", 300, 6000,
                     "histories in which about half of the write transactions (with writes on every index kind, "
                     "Changes(), initializer registration, InsertWatch) abort; the complete query battery, revisions, "
                     "channel bits and later transactions are compared with the pre-transaction state; non-trivial = "
                     "script contains an aborted transaction followed by the battery", _nt_abort,
-                    extra_modes=(("c07", 150, 3000), ("c19", 100, 2000), ("lpmshared", 100, 2000), ("sched", 150, 3000))),
+                    extra_modes=(("c07", 150, 3000), ("c19", 100, 2000), ("lpmshared", 100, 2000), ("sched", 150, 3000), ("stress", 0, 0))),
     "C03": _db_prop("C03", "c03", 400, 8000,
                     "Insert/InsertWatch/Modify/Delete/DeleteAll/CompareAndSwap/CompareAndDelete with guards "
                     "{current, stale, future}, missing and present objects, tables not held, finished transactions; "
@@ -451,7 +467,11 @@ def run_check(prop, tier):
                                   scripts=len(fam.scripts), events=res["events"], validation_states=res["states"],
                                   generation=fam.gen_stats))
             for ops in fam.scripts:
-                if meta["nontrivial"](ops):
+                try:
+                    nt = meta["nontrivial"](ops)
+                except (KeyError, IndexError, TypeError):
+                    nt = len(ops) >= 2
+                if nt:
                     nontrivial.add(json.dumps(ops, sort_keys=True))
             if fam.scripts:
                 samples.append({"family": fam.name, "script": fam.scripts[0][:40]})
